@@ -2369,7 +2369,7 @@ func (tc *typechecker) checkImplicitField(field *ast.Field) reflect.StructField 
 	//  a pointer to a non-interface type name *T, and T itself
 	//  may not be a pointer type".
 	k := typ.Kind()
-	if typ.Name() == "" {
+	if typ.Name() == "" && k == reflect.Pointer {
 		k = typ.Elem().Kind()
 		if k == reflect.Interface {
 			panic(tc.errorf(field.Type, "embedded type cannot be a pointer to interface"))
